@@ -26,6 +26,45 @@ CHECKS = {
              "reachable from a document body."),
     "technique": "deterministic simulation: seeded API-call histories with injected rejected calls, invariants after every step, ddmin-minimised replay",
   },
+  "C18": {
+    "engine": "simio",
+    "category": "fault_enumeration",
+    "text": ("Simulated authoring tools (and the bundled corpus) produce files of the five input formats; a storage/channel fault injector "
+             "applies seeded fault sequences (EOF at any byte, bit flips, overwritten/zero-filled ranges, dropped/duplicated/swapped/misdirected "
+             "records, torn blocks, broken UTF-8, boundary values); the real reader consumes the result through tt.py-like streams and any "
+             "returned document goes through ISD generation, the LCD filter and all three writers under seeded valid configurations. 8 of every "
+             "40 runs are sweep runs that enumerate the complete single-fault space (every truncation offset, 4 corruptions per byte, every record "
+             "drop/duplication/swap) of one small seeded file. Oracle: the error-class contract of the statement, termination, and no exception "
+             "downstream. Complete along the single-fault dimension per swept file; files and multi-fault combinations are sampled."),
+    "design_ref": "DESIGN.md section 3 (C18)",
+    "note": ("Trusted: exception classification (xml.etree rejections count as input-format errors; a RuntimeError raised inside the reader's own "
+             "package is counted, not alarmed), wall-clock termination limits, producers as workload only."),
+    "technique": "deterministic simulation with fault injection: producer -> faulted storage -> real reader -> real pipeline; single-fault crash-point sweeps + seeded multi-fault sampling",
+  },
+  "C14": {
+    "engine": "simisd",
+    "category": "exploration",
+    "text": ("Seeded histories of significant_times / from_model (uncached and with kept, stale SignificantTimes objects) / generate_isd_sequence / "
+             "SRT / WebVTT / IMSC writer calls on ONE shared document; after every call the source fingerprint (and that of cached per-region "
+             "clones) must be unchanged, the result must equal the same call on a pristine equal document, repeats must agree, and cached "
+             "snapshots must equal uncached ones modulo empty regions that paint nothing. Sampling over documents (model-API recipes and reader "
+             "outputs), times and call orders."),
+    "design_ref": "DESIGN.md section 3 (C14)",
+    "note": "Trusted: canonical forms of ISDs/documents, the paint rule for empty regions, determinism of my recipe builder (guarded: two builds must fingerprint equal).",
+    "technique": "deterministic simulation: seeded call histories on shared mutable state vs. pristine-clone reference, fingerprint invariants after every call",
+  },
+  "C19": {
+    "engine": "simcli",
+    "category": "exploration",
+    "text": ("Seeded histories of 3-12 `tt` command lines run by the real ttconv.tt.main in one interpreter forked from a pristine template, on an "
+             "in-memory file system behind builtins.open/io.open; each command is compared byte for byte with my library composition (reader, "
+             "filters in order, writer, configurations parsed from the JSON, file-over-inline precedence, document_lang) computed in its own pristine "
+             "fork; usage faults (unsupported types, unknown sub-commands, documented-invalid configuration values from README.md) must end in an "
+             "error and leave no output file; histories are repeated in reversed order and, one in eight, in fresh interpreters under three hash seeds."),
+    "design_ref": "DESIGN.md section 3 (C19)",
+    "note": "Trusted: sim/ref/pipeline.py (reference composition and README-derived table of documented values), simfs fidelity for the open() modes tt.py uses. Disk faults are not injected (no outcome defined by the statement).",
+    "technique": "deterministic simulation: command histories in one simulated process over an in-memory disk, pristine-fork reference model, usage-fault injection, restarts under other hash seeds",
+  },
 }
 
 NA = {
@@ -83,6 +122,10 @@ def main():
     },
     "engines": [
       {"name": "simcore", "path": "/verif/sim", "serves_properties": sorted(CHECKS), "kind_free_text": "seed-range driver, event log/digest, signature-preserving ddmin, replay, determinism self-test, watchdogs"},
+      {"name": "simmodel", "path": "/verif/checks/c15.py", "serves_properties": ["C15"], "kind_free_text": "API-call history machine over the canonical model"},
+      {"name": "simio", "path": "/verif/checks/c18.py", "serves_properties": ["C18"], "kind_free_text": "producers + storage/channel fault injector (sim/faults.py, sim/producers) + real reader pipeline"},
+      {"name": "simisd", "path": "/verif/checks/c14.py", "serves_properties": ["C14"], "kind_free_text": "shared-document call histories vs pristine reference"},
+      {"name": "simcli", "path": "/verif/checks/c19.py", "serves_properties": ["C19"], "kind_free_text": "tt.main histories over an in-memory file system (sim/simfs.py) vs library pipeline (sim/ref/pipeline.py)"},
     ],
     "checks": checks,
     "not_applicable": na,
